@@ -57,13 +57,22 @@ class Bench:
 
     def run(self, setup: Callable[[], None], client: Callable[[int, list], Awaitable[None]],
             *, eager: bool = False, params: dict | None = None,
-            uv: bool = False) -> dict:
+            uv: bool = False, retry: bool = False) -> dict:
         import anyio
 
         async def wrapped(t: int, script: list) -> None:
             self.ids[id(asyncio.current_task())] = t
-            with self.scopes[t]:
-                await client(t, script)
+            ops = iter(script)          # shared by the retries: each operation is performed once
+            while True:
+                scope = self.scopes[t]
+                with scope:
+                    await client(t, ops)
+                if retry and scope.cancelled_caught:
+                    # the move_on_after pattern: the scope absorbed its cancellation, the task carries on
+                    self.scopes[t] = anyio.CancelScope()
+                    self.rec.emit(ev="cdone", t=t)
+                    continue
+                break
 
         async def main() -> None:
             self.loop = uvrun.view(asyncio.get_running_loop())  # type: ignore[assignment]
